@@ -2,8 +2,8 @@ _ANCH = ["src/hgraph/runtime/switch_node.cpp", "include/hgraph/runtime/switch_no
          "include/hgraph/lib/std/operators/impl/higher_order_impl.h", "src/hgraph/lib/std/operators/higher_order_impl.cpp"]
 _SRC = "harness/C12_switch.cpp"
 _B = ("branches {key 0: x+1, key 1: running sum (State), key 2: self-scheduling (re-emits one cycle after each tick of x from its own NodeScheduler), "
-      "default (enumerated present/absent): key-consuming key*1000+x}; reload_on_ticked enumerated on/off; NCYC engine cycles, in each the key source "
-      "{does not tick, ticks 0, 1, 2, 3} and x {ticks with a fresh unconstrained symbolic int64, does not tick} (all combinations); checked after every "
+      "default (enumerated present/absent): key-consuming and stateful key*1000+x+1e6*age}; reload_on_ticked enumerated on/off; NCYC engine cycles, in each the key source "
+      "{does not tick, ticks 0, 1, 2, 3, 4} (3 and 4 are both unmatched: a change between them switches from the default branch to a fresh default instance) and x {ticks with a fresh unconstrained symbolic int64, does not tick} (all combinations); checked after every "
       "cycle plus one trailing cycle for pending timers")
 _OUT = ("switch_ call-shape normalisation in front of wire_switch (operator front door, keyword arguments); REF-shaped / collection-shaped switch outputs "
         "(output_forwards_to_child_terminal); sink branches; branches of different arity beyond the leading key; branches that throw; dispatch_; "
@@ -13,10 +13,10 @@ reg("C12",
     quick=dict(defs=dict(CONFIGS="{0,4},{1,3}", RELOADS=2, DEFAULTS=2), symx=dict(shards=16, **{"max-wall": 900, "query-timeout-ms": 120000})),
     thorough=dict(defs=dict(CONFIGS="{0,5},{1,4}", RELOADS=2, DEFAULTS=2), symx=dict(shards=16, **{"max-wall": 3000, "shard-depth": 8, "query-timeout-ms": 120000})),
     reach=["end", "switched", "three_switches", "returned_to_earlier_key", "switch_and_input_tick_same_cycle", "switched_away_with_pending_timer",
-           "reload_on_same_key", "same_key_tick_without_reload", "default_branch_selected", "branch_timer_fired", "selected_before_input_valid",
+           "reload_on_same_key", "same_key_tick_without_reload", "default_branch_selected", "default_to_default_key_change", "branch_timer_fired", "selected_before_input_valid",
            "unmatched_key_throws"],
-    bounds="configurations {key type, NCYC}: quick {int,4},{str,3}; thorough {int,5},{str,4}; " + _B + "; with int keys the unmatched key 3 is only scripted "
-           "when a default branch exists; with string keys 'k0'..'k3' it is also scripted without default branch and must make run() throw (and only then)",
+    bounds="configurations {key type, NCYC}: quick {int,4},{str,3}; thorough {int,5},{str,4}; " + _B + "; with int keys the unmatched keys 3, 4 are only scripted "
+           "when a default branch exists; with string keys 'k0'..'k4' they are also scripted without default branch and must make run() throw (and only then)",
     outside=_OUT,
     assumptions=["string keys are used for the unmatched-key error because the int key's error message is rendered through std::ostringstream, which the "
                  "symbolic engine cannot execute (external libstdc++ object)"],
